@@ -23,7 +23,7 @@ import (
 func init() {
 	Register(&Prop{
 		ID:   "C18",
-		Expl: "Decides the mutex part of deadlock freedom by a lock-order analysis of the whole production call graph. Every sync.Mutex/RWMutex acquisition is abstracted to a lock class (named type + field, or package-level variable); a flow-sensitive pass over each function's SSA CFG (Lock/Unlock/RLock/RUnlock, deferred unlocks, early unlock/relock as in SendEvent) gives the locks held at every call and acquisition; summaries over the synchronous VTA call edges (go statements cut, interface and func-valued-field callees resolved) give the locks a call may acquire. (R1) the resulting lock-order graph has no cycle and no self-loop — each edge instance that lies on a cycle is reported with the call path that takes the inner lock and the call paths that close the cycle; (R2) no component lock is held across a dynamic call (callback field, observer interface) that can reach the acquisition of the per-swap event mutex while that component lock is itself taken under the event mutex; (R3) no synchronous call path leads from an Action.Execute (which runs under the per-swap mutex) back into SendEvent/Recover. The quantifier is over all functions, call sites and acquisition sites of the production packages, i.e. over all interleavings that the lock order admits.",
+		Expl: "Decides the mutex part of deadlock freedom by a lock-order analysis of the whole production call graph. Every sync.Mutex/RWMutex acquisition is abstracted to a lock class (named type + field, or package-level variable); a flow-sensitive pass over each function's SSA CFG (Lock/Unlock/RLock/RUnlock, deferred unlocks, early unlock/relock as in SendEvent; lock/unlock wrappers, release helpers and deferred closures are summarised by their fixed net effect +class/-class and applied at the call or at function exit; mutex aliases, captured aliases and mutex parameters are resolved to the class they denote) gives the locks held at every call and acquisition; summaries over the synchronous VTA call edges (go statements cut, interface and func-valued-field callees resolved) give the locks a call may acquire. (R1) the resulting lock-order graph has no cycle and no self-loop — each edge instance that lies on a cycle is reported with the call path that takes the inner lock and the call paths that close the cycle; (R2) no component lock is held across a dynamic call (callback field, observer interface) that can reach the acquisition of the per-swap event mutex while that component lock is itself taken under the event mutex; (R3) no synchronous call path leads from an Action.Execute (which runs under the per-swap mutex) back into SendEvent/Recover. The quantifier is over all functions, call sites and acquisition sites of the production packages, i.e. over all interleavings that the lock order admits.",
 		NotD: "Channel-based blocking (unbuffered sends in the RPC watcher), blocking RPCs, sync.Cond/WaitGroup waits, goroutine leaks. Lock classes merge all instances of a type (a cycle between two different objects of one class is reported like one on a single object); feasibility of a path with respect to the FSM tables or swap ids is not examined.",
 		Run:  runC18,
 	})
@@ -93,9 +93,57 @@ func (s c18Set) holds(class string, anyMode bool) bool {
 
 func c18Base(k string) string { return strings.TrimSuffix(k, "#R") }
 
+// c18State is the lock state relative to the function's entry: must/may are
+// the locks the function itself acquired and still holds; relMust/relMay are
+// caller-owned locks (not acquired here) that the function has released.
 type c18State struct {
-	must, may c18Set
-	reached   bool
+	must, may       c18Set
+	relMust, relMay c18Set
+	reached         bool
+}
+
+func c18NewState() *c18State {
+	return &c18State{must: c18Set{}, may: c18Set{}, relMust: c18Set{}, relMay: c18Set{}}
+}
+
+func (st *c18State) clone() *c18State {
+	return &c18State{must: st.must.clone(), may: st.may.clone(), relMust: st.relMust.clone(), relMay: st.relMay.clone(), reached: st.reached}
+}
+
+// acquire / release apply a lock operation (a direct one, or the net effect of a callee).
+func (st *c18State) acquire(k string) {
+	if st.relMay[k] {
+		// the caller's lock, released earlier in this function, is taken back
+		delete(st.relMay, k)
+		delete(st.relMust, k)
+		return
+	}
+	st.must[k] = true
+	st.may[k] = true
+}
+
+func (st *c18State) release(k string) {
+	if st.may[k] {
+		delete(st.must, k)
+		delete(st.may, k)
+		return
+	}
+	st.relMust[k] = true
+	st.relMay[k] = true
+}
+
+// c18Net is the fixed net lock effect of a function on its caller: plus are
+// locks it returns holding (lock wrappers), minus are caller-held locks it
+// releases (release helpers, deferred closures that unlock).
+type c18Net struct{ plus, minus c18Set }
+
+func (n *c18Net) empty() bool { return n == nil || (len(n.plus) == 0 && len(n.minus) == 0) }
+
+func c18NetEqual(a, b *c18Net) bool {
+	if a.empty() || b.empty() {
+		return a.empty() && b.empty()
+	}
+	return a.plus.equal(b.plus) && a.minus.equal(b.minus)
 }
 
 const (
@@ -125,6 +173,7 @@ type c18Acq struct {
 	class     string
 	read      bool
 	must, may c18Set // held before the acquisition (locally)
+	rel       c18Set // caller-owned locks definitely released before it
 }
 
 // c18Site is one call site (not a lock operation) with the locally held locks.
@@ -132,6 +181,8 @@ type c18Site struct {
 	fn        *ssa.Function
 	instr     ssa.CallInstruction
 	must, may c18Set
+	rel       c18Set // caller-owned locks definitely released before the call
+	relMay    c18Set // caller-owned locks possibly released before the call
 	isGo      bool
 	isDefer   bool
 	callees   []*ssa.Function // analysed callees (in universe)
@@ -145,13 +196,22 @@ type c18Func struct {
 	deferredUnlock c18Set
 	acqs           []*c18Acq
 	sites          []*c18Site
-	acq            map[string]bool // outer acquisitions summary (classes)
+	acq            map[string]bool   // outer acquisitions summary (classes)
+	acqRel         map[string]c18Set // per class: caller-owned locks released before EVERY such acquisition
+	acquired       c18Set            // every key this function locks directly
+	viaWrapper     c18Set            // keys it comes to hold through a lock wrapper
+	netBad         bool              // the return paths have no fixed net lock effect
+	opaqueDefer    bool              // calls/defers a function value with no analysable callee, or hands a lock to a goroutine
+	rets           []*c18Net         // lock effect at each return
+	retPos         []token.Pos
+	net            *c18Net
 }
 
 type c18Unknown struct {
-	fn   *ssa.Function
-	pos  token.Pos
-	what string
+	fn    *ssa.Function
+	pos   token.Pos
+	what  string
+	state bool // the held-lock sets inside fn are unreliable
 }
 
 type c18Engine struct {
@@ -166,6 +226,8 @@ type c18Engine struct {
 	anchors        []string
 	classPos       map[string]token.Pos
 	nDynUnresolved int
+	net            map[*ssa.Function]*c18Net
+	netBad         map[*ssa.Function]bool
 }
 
 var (
@@ -339,8 +401,36 @@ func (e *c18Engine) build() {
 			}
 		}
 	}
-	for _, fn := range e.funcs {
-		e.fi[fn] = e.analyse(fn)
+	// Net lock effects of callees (lock/unlock wrappers, release helpers,
+	// deferred closures that unlock) are applied at their call sites; iterate
+	// until the summaries are stable.
+	e.net = map[*ssa.Function]*c18Net{}
+	e.netBad = map[*ssa.Function]bool{}
+	for round := 0; ; round++ {
+		e.unknown = nil
+		e.nDynUnresolved = 0
+		changed := false
+		next := map[*ssa.Function]*c18Net{}
+		nextBad := map[*ssa.Function]bool{}
+		for _, fn := range e.funcs {
+			fi := e.analyse(fn)
+			e.fi[fn] = fi
+			next[fn] = fi.net
+			if fi.netBad {
+				nextBad[fn] = true
+			}
+			if !c18NetEqual(fi.net, e.net[fn]) || fi.netBad != e.netBad[fn] {
+				changed = true
+			}
+		}
+		e.net, e.netBad = next, nextBad
+		if !changed {
+			break
+		}
+		if round > 8 {
+			e.anchors = append(e.anchors, "lock-effect summaries do not stabilise")
+			break
+		}
 	}
 	for _, fn := range e.funcs {
 		for _, s := range e.fi[fn].sites {
@@ -396,7 +486,14 @@ func (e *c18Engine) lockOp(fn *ssa.Function, c ssa.CallInstruction) *c18LockOp {
 		return nil
 	}
 	f := cc.StaticCallee()
-	if f == nil || f.Signature.Recv() == nil {
+	if f == nil {
+		// a call of a method value such as the result of `func lock() func() { mu.Lock(); return mu.Unlock }`
+		if kind, class, ok := e.methodValueOp(fn, cc.Value, 0); ok {
+			return &c18LockOp{kind: kind, class: class}
+		}
+		return nil
+	}
+	if f.Signature.Recv() == nil {
 		return nil
 	}
 	rn := an.NamedOf(f.Signature.Recv().Type())
@@ -437,8 +534,107 @@ func (e *c18Engine) lockOp(fn *ssa.Function, c ssa.CallInstruction) *c18LockOp {
 	return op
 }
 
+// c18BoundSyncOp: fn is the bound-method wrapper of a sync.Mutex/RWMutex
+// Lock/Unlock/RLock/RUnlock (the value of the expression `mu.Unlock`).
+func c18BoundSyncOp(fn *ssa.Function) (kind int, ok bool) {
+	if fn == nil || !strings.HasPrefix(fn.Synthetic, "bound method wrapper") {
+		return 0, false
+	}
+	obj, _ := fn.Object().(*types.Func)
+	if obj == nil || obj.Pkg() == nil || obj.Pkg().Path() != "sync" {
+		return 0, false
+	}
+	sig, _ := obj.Type().(*types.Signature)
+	if sig == nil || sig.Recv() == nil {
+		return 0, false
+	}
+	rn := an.NamedOf(sig.Recv().Type())
+	if rn == nil || (rn.Obj().Name() != "Mutex" && rn.Obj().Name() != "RWMutex") {
+		return 0, false
+	}
+	switch obj.Name() {
+	case "Lock":
+		return c18Lock, true
+	case "RLock":
+		return c18RLock, true
+	case "Unlock":
+		return c18Unlock, true
+	case "RUnlock":
+		return c18RUnlock, true
+	}
+	return 0, false
+}
+
+// methodValueOp resolves a func value to a mutex operation on a known class:
+// a method value `mu.Unlock`, or the result of an in-module function that
+// always returns such a method value of one class.
+func (e *c18Engine) methodValueOp(fn *ssa.Function, v ssa.Value, depth int) (kind int, class string, ok bool) {
+	if depth > 4 {
+		return 0, "", false
+	}
+	switch x := v.(type) {
+	case *ssa.MakeClosure:
+		f, _ := x.Fn.(*ssa.Function)
+		k, isOp := c18BoundSyncOp(f)
+		if !isOp || len(x.Bindings) != 1 {
+			return 0, "", false
+		}
+		cl, _, skip := e.classOfD(fn, x.Bindings[0], depth+1)
+		if skip || cl == "" {
+			return 0, "", false
+		}
+		return k, cl, true
+	case *ssa.ChangeType:
+		return e.methodValueOp(fn, x.X, depth+1)
+	case *ssa.Phi:
+		first := true
+		for _, ed := range x.Edges {
+			k, cl, o := e.methodValueOp(fn, ed, depth+1)
+			if !o || (!first && (k != kind || cl != class)) {
+				return 0, "", false
+			}
+			kind, class, first = k, cl, false
+		}
+		return kind, class, !first
+	case *ssa.Extract:
+		if call, isCall := x.Tuple.(*ssa.Call); isCall {
+			return e.resultOp(call, x.Index, depth)
+		}
+	case *ssa.Call:
+		return e.resultOp(x, 0, depth)
+	}
+	return 0, "", false
+}
+
+// resultOp: result #idx of the call is always the same mutex method value.
+func (e *c18Engine) resultOp(call *ssa.Call, idx int, depth int) (kind int, class string, ok bool) {
+	g := call.Common().StaticCallee()
+	if g == nil || !e.in[g] {
+		return 0, "", false
+	}
+	first := true
+	for _, r := range an.Returns(g) {
+		if idx >= len(r.Results) {
+			return 0, "", false
+		}
+		k, cl, o := e.methodValueOp(g, r.Results[idx], depth+1)
+		if !o || (!first && (k != kind || cl != class)) {
+			return 0, "", false
+		}
+		kind, class, first = k, cl, false
+	}
+	return kind, class, !first
+}
+
 // classOf names the lock class of the mutex address v.
 func (e *c18Engine) classOf(fn *ssa.Function, v ssa.Value) (class, why string, skip bool) {
+	return e.classOfD(fn, v, 0)
+}
+
+func (e *c18Engine) classOfD(fn *ssa.Function, v ssa.Value, depth int) (class, why string, skip bool) {
+	if depth > 6 {
+		return "", "mutex address chain too deep", false
+	}
 	switch x := v.(type) {
 	case *ssa.FieldAddr:
 		st, _ := c18Deref(x.X.Type()).Underlying().(*types.Struct)
@@ -453,7 +649,7 @@ func (e *c18Engine) classOf(fn *ssa.Function, v ssa.Value) (class, why string, s
 			return e.qual(owner) + "." + fname, "", false
 		}
 		if inner, ok := x.X.(*ssa.FieldAddr); ok {
-			c, why, skip := e.classOf(fn, inner)
+			c, why, skip := e.classOfD(fn, inner, depth+1)
 			if c == "" {
 				return "", why, skip
 			}
@@ -469,9 +665,26 @@ func (e *c18Engine) classOf(fn *ssa.Function, v ssa.Value) (class, why string, s
 		}
 		return x.Name(), "", false
 	case *ssa.UnOp:
-		if x.Op == token.MUL { // pointer-to-mutex stored in a field or global
-			return e.classOf(fn, x.X)
+		if x.Op == token.MUL {
+			switch ad := x.X.(type) {
+			case *ssa.Alloc: // a local pointer variable (alias) that lives in a cell
+				if _, isPtr := c18Deref(ad.Type()).Underlying().(*types.Pointer); isPtr {
+					return e.cellClass(fn, ad, depth)
+				}
+			case *ssa.FreeVar: // ... captured by a closure
+				if _, isPtr := c18Deref(ad.Type()).Underlying().(*types.Pointer); isPtr {
+					if cell, pfn := c18CapturedCell(fn, ad); cell != nil {
+						return e.cellClass(pfn, cell, depth)
+					}
+				}
+			}
+			// pointer-to-mutex stored in a field or global
+			return e.classOfD(fn, x.X, depth+1)
 		}
+	case *ssa.Phi:
+		return e.sameClass(fn, x.Edges, depth)
+	case *ssa.Parameter:
+		return e.paramClass(fn, x, depth)
 	case *ssa.Alloc:
 		return "local:" + e.w.FuncName(an.EnclosingTop(fn)) + ":" + x.Comment, "", false
 	case *ssa.FreeVar:
@@ -481,6 +694,123 @@ func (e *c18Engine) classOf(fn *ssa.Function, v ssa.Value) (class, why string, s
 	return "", fmt.Sprintf("mutex address %s (%T) has no lock class", v.Name(), v), false
 }
 
+// sameClass: all values name the same lock class.
+func (e *c18Engine) sameClass(fn *ssa.Function, vs []ssa.Value, depth int) (string, string, bool) {
+	class := ""
+	for _, v := range vs {
+		c, why, skip := e.classOfD(fn, v, depth+1)
+		if skip {
+			return "", "", true
+		}
+		if c == "" {
+			return "", why, false
+		}
+		if class != "" && c != class {
+			return "", "mutex alias may denote " + class + " or " + c, false
+		}
+		class = c
+	}
+	if class == "" {
+		return "", "mutex alias is never assigned", false
+	}
+	return class, "", false
+}
+
+// cellClass: the class of a local pointer-to-mutex variable = what is stored into it.
+func (e *c18Engine) cellClass(fn *ssa.Function, cell *ssa.Alloc, depth int) (string, string, bool) {
+	var vals []ssa.Value
+	if cell.Referrers() != nil {
+		for _, r := range *cell.Referrers() {
+			if st, ok := r.(*ssa.Store); ok && st.Addr == cell {
+				vals = append(vals, st.Val)
+			}
+		}
+	}
+	return e.sameClass(fn, vals, depth)
+}
+
+// c18CapturedCell finds the variable cell of the enclosing function that a
+// free variable of closure fn is bound to.
+func c18CapturedCell(fn *ssa.Function, fv *ssa.FreeVar) (*ssa.Alloc, *ssa.Function) {
+	parent := fn.Parent()
+	if parent == nil {
+		return nil, nil
+	}
+	idx := -1
+	for i, f := range fn.FreeVars {
+		if f == fv {
+			idx = i
+		}
+	}
+	if idx < 0 {
+		return nil, nil
+	}
+	for _, b := range parent.Blocks {
+		for _, in := range b.Instrs {
+			mc, ok := in.(*ssa.MakeClosure)
+			if !ok || mc.Fn != fn || idx >= len(mc.Bindings) {
+				continue
+			}
+			switch bv := mc.Bindings[idx].(type) {
+			case *ssa.Alloc:
+				return bv, parent
+			case *ssa.FreeVar:
+				return c18CapturedCell(parent, bv)
+			}
+		}
+	}
+	return nil, nil
+}
+
+// paramClass: a mutex passed as parameter has the class of the arguments, when
+// every caller passes the same class.
+func (e *c18Engine) paramClass(fn *ssa.Function, p *ssa.Parameter, depth int) (string, string, bool) {
+	idx := -1
+	for i, q := range fn.Params {
+		if q == p {
+			idx = i
+		}
+	}
+	n := e.w.CG().Nodes[fn]
+	if idx < 0 || n == nil {
+		return "", "mutex parameter without callers", false
+	}
+	class := ""
+	for _, ed := range n.In {
+		if ed.Site == nil || ed.Caller == nil || ed.Caller.Func == nil || !e.in[ed.Caller.Func] {
+			continue
+		}
+		cc := ed.Site.Common()
+		var av ssa.Value
+		switch {
+		case cc.IsInvoke() && idx == 0:
+			av = cc.Value
+		case cc.IsInvoke() && idx-1 < len(cc.Args):
+			av = cc.Args[idx-1]
+		case !cc.IsInvoke() && len(cc.Args) == len(fn.Params):
+			av = cc.Args[idx]
+		}
+		if av == nil {
+			return "", "mutex parameter with an unmapped argument", false
+		}
+		c, why, skip := e.classOfD(ed.Caller.Func, av, depth+1)
+		if skip {
+			continue
+		}
+		if c == "" {
+			return "", why, false
+		}
+		if class != "" && c != class {
+			return "", "mutex parameter receives " + class + " and " + c, false
+		}
+		class = c
+	}
+	if class == "" {
+		return "", "mutex parameter without analysed callers", false
+	}
+	return class, "", false
+}
+
 func c18Deref(t types.Type) types.Type {
 	if p, ok := t.Underlying().(*types.Pointer); ok {
 		return p.Elem()
@@ -488,8 +818,43 @@ func c18Deref(t types.Type) types.Type {
 	return t
 }
 
+// note records an unsupported shape that only affects the function's summary
+// for its callers; noteState one that makes the held-lock sets inside the
+// function itself unreliable (findings located there are then not established).
 func (e *c18Engine) note(fn *ssa.Function, pos token.Pos, format string, a ...interface{}) {
-	e.unknown = append(e.unknown, c18Unknown{fn, pos, fmt.Sprintf(format, a...)})
+	e.unknown = append(e.unknown, c18Unknown{fn: fn, pos: pos, what: fmt.Sprintf(format, a...)})
+}
+
+func (e *c18Engine) noteState(fn *ssa.Function, pos token.Pos, format string, a ...interface{}) {
+	e.unknown = append(e.unknown, c18Unknown{fn: fn, pos: pos, what: fmt.Sprintf(format, a...), state: true})
+}
+
+// siteNet returns the common net lock effect of the callees of a call
+// (nil = none). ok is false when the callees disagree.
+func (e *c18Engine) siteNet(c ssa.CallInstruction) (net *c18Net, ok bool) {
+	var callees []*ssa.Function
+	callees = append(callees, e.callees[c]...)
+	if f := c.Common().StaticCallee(); f != nil && e.in[f] {
+		callees = append(callees, f)
+	}
+	first := true
+	for _, g := range callees {
+		if e.netBad[g] {
+			return nil, false // the callee has no fixed lock effect
+		}
+		n := e.net[g]
+		if first {
+			net, first = n, false
+			continue
+		}
+		if !c18NetEqual(net, n) {
+			return nil, false
+		}
+	}
+	if net.empty() {
+		return nil, true
+	}
+	return net, true
 }
 
 // step applies one instruction to the state.
@@ -501,47 +866,85 @@ func (e *c18Engine) step(fi *c18Func, st *c18State, in ssa.Instruction, record b
 			if record {
 				e.recordSite(fi, st, x)
 			}
+			if cc := x.Common(); cc.StaticCallee() == nil && !cc.IsInvoke() && len(e.callees[x]) == 0 {
+				if _, isBuiltin := cc.Value.(*ssa.Builtin); !isBuiltin {
+					fi.opaqueDefer = true // a function value we cannot look into
+				}
+			}
+			net, ok := e.siteNet(x)
+			if !ok {
+				if record {
+					e.noteState(fi.fn, x.Pos(), "the possible callees of this call have no common fixed net lock effect: unsupported shape")
+				}
+				return
+			}
+			if net != nil {
+				for _, k := range net.minus.sorted() {
+					st.release(k)
+				}
+				for _, k := range net.plus.sorted() {
+					st.acquire(k)
+					fi.viaWrapper[k] = true
+				}
+			}
 			return
 		}
 		if op.class == "" {
 			if record {
-				e.note(fi.fn, x.Pos(), "%s", op.why)
+				e.noteState(fi.fn, x.Pos(), "%s", op.why)
 			}
 			return
 		}
 		switch op.kind {
 		case c18Lock, c18RLock:
 			if record {
-				fi.acqs = append(fi.acqs, &c18Acq{fn: fi.fn, instr: x, class: op.class, read: op.kind == c18RLock, must: st.must.clone(), may: st.may.clone()})
+				fi.acqs = append(fi.acqs, &c18Acq{fn: fi.fn, instr: x, class: op.class, read: op.kind == c18RLock, must: st.must.clone(), may: st.may.clone(), rel: st.relMust.clone()})
 			}
-			st.must[op.key()] = true
-			st.may[op.key()] = true
+			fi.acquired[op.key()] = true
+			st.acquire(op.key())
 		case c18Unlock, c18RUnlock:
-			if record && !st.may[op.key()] {
-				e.note(fi.fn, x.Pos(), "releases %s which this function did not acquire (caller-owned lock): unsupported shape", op.key())
-			}
-			delete(st.must, op.key())
-			delete(st.may, op.key())
+			st.release(op.key())
 		}
 	case *ssa.Defer:
 		op := e.lockOp(fi.fn, x)
 		if op == nil {
-			return // evaluated at RunDefers
+			// a deferred callee that releases a lock (defer func(){ mu.Unlock() }(),
+			// defer x.unlockState()) is a deferred unlock
+			net, ok := e.siteNet(x)
+			if !ok || (net != nil && len(net.plus) > 0) {
+				if record {
+					e.noteState(fi.fn, x.Pos(), "deferred call with an acquiring or ambiguous net lock effect: unsupported shape")
+				}
+				return
+			}
+			if net != nil {
+				for k := range net.minus {
+					fi.deferredUnlock[k] = true
+				}
+			}
+			if x.Common().StaticCallee() == nil && !x.Common().IsInvoke() && len(e.callees[x]) == 0 {
+				fi.opaqueDefer = true
+			}
+			return // the call itself is evaluated at RunDefers
 		}
 		if op.class == "" {
 			if record {
-				e.note(fi.fn, x.Pos(), "%s", op.why)
+				e.noteState(fi.fn, x.Pos(), "%s", op.why)
 			}
 			return
 		}
 		if op.kind == c18Unlock || op.kind == c18RUnlock {
 			fi.deferredUnlock[op.key()] = true
 		} else if record {
-			e.note(fi.fn, x.Pos(), "deferred acquisition of %s: unsupported shape", op.key())
+			e.noteState(fi.fn, x.Pos(), "deferred acquisition of %s: unsupported shape", op.key())
 		}
 	case *ssa.Go:
 		if record {
 			e.recordSite(fi, st, x)
+			if net, ok := e.siteNet(x); !ok || net != nil {
+				fi.opaqueDefer = true
+				e.noteState(fi.fn, x.Pos(), "goroutine entry function ends with a net lock effect (%s): unsupported shape", c18NetString(net))
+			}
 		}
 	case *ssa.RunDefers:
 		if !record {
@@ -555,7 +958,7 @@ func (e *c18Engine) step(fi *c18Func, st *c18State, in ssa.Instruction, record b
 				if !ok || e.lockOp(fi.fn, d) != nil {
 					continue
 				}
-				ds := &c18State{must: st.must.clone(), may: st.may.clone()}
+				ds := st.clone()
 				for k := range fi.deferredUnlock {
 					delete(ds.must, k)
 				}
@@ -563,14 +966,60 @@ func (e *c18Engine) step(fi *c18Func, st *c18State, in ssa.Instruction, record b
 			}
 		}
 	case *ssa.Return:
-		if record {
-			for k := range st.may {
-				if !fi.deferredUnlock[k] {
-					e.note(fi.fn, x.Pos(), "returns while %s may still be held and no deferred unlock exists: lock hand-over to the caller is an unsupported shape", k)
-				}
+		if !record {
+			return
+		}
+		// net effect on this return path: locks still held after the deferred
+		// unlocks ran (+), caller-owned locks released (-)
+		n := &c18Net{plus: c18Set{}, minus: c18Set{}}
+		fixed := true
+		for k := range st.may {
+			if fi.deferredUnlock[k] {
+				continue
+			}
+			n.plus[k] = true
+			if !st.must[k] {
+				fixed = false
 			}
 		}
+		for k := range st.relMay {
+			n.minus[k] = true
+			if !st.relMust[k] {
+				fixed = false
+			}
+		}
+		for k := range fi.deferredUnlock {
+			// a deferred unlock of a lock this function never takes releases the caller's lock
+			if !st.may[k] && !fi.acquired[k] {
+				n.minus[k] = true
+			}
+		}
+		if !fixed {
+			fi.netBad = true
+			e.note(fi.fn, x.Pos(), "a lock is held or released on some paths to this return only (%s): unsupported shape", c18NetString(n))
+		}
+		if len(n.plus) > 0 && fi.opaqueDefer {
+			// a deferred call of a function value we cannot look into may be the unlock
+			e.noteState(fi.fn, x.Pos(), "returns holding %s, but a call of an unresolved function value (or a goroutine it starts) may release it: unsupported shape", c18NetString(n))
+			n = &c18Net{plus: c18Set{}, minus: n.minus}
+		}
+		fi.rets = append(fi.rets, n)
+		fi.retPos = append(fi.retPos, x.Pos())
 	}
+}
+
+func c18NetString(n *c18Net) string {
+	if n.empty() {
+		return "no effect"
+	}
+	var p []string
+	for _, k := range n.plus.sorted() {
+		p = append(p, "+"+k)
+	}
+	for _, k := range n.minus.sorted() {
+		p = append(p, "-"+k)
+	}
+	return strings.Join(p, " ")
 }
 
 func (e *c18Engine) recordSite(fi *c18Func, st *c18State, c ssa.CallInstruction) {
@@ -589,10 +1038,18 @@ func (e *c18Engine) recordSite(fi *c18Func, st *c18State, c ssa.CallInstruction)
 			for k := range st.may {
 				s.may[k] = true
 			}
+			for k := range s.rel {
+				if !st.relMust[k] {
+					delete(s.rel, k)
+				}
+			}
+			for k := range st.relMay {
+				s.relMay[k] = true
+			}
 			return
 		}
 	}
-	s := &c18Site{fn: fi.fn, instr: c, must: st.must.clone(), may: st.may.clone(), isGo: ci.IsGo, isDefer: ci.IsDefer, name: ci.Name}
+	s := &c18Site{fn: fi.fn, instr: c, must: st.must.clone(), may: st.may.clone(), rel: st.relMust.clone(), relMay: st.relMay.clone(), isGo: ci.IsGo, isDefer: ci.IsDefer, name: ci.Name}
 	s.callees = append(s.callees, e.callees[c]...)
 	if ci.Static != nil && e.in[ci.Static] {
 		found := false
@@ -636,47 +1093,64 @@ func (e *c18Engine) recordSite(fi *c18Func, st *c18State, c ssa.CallInstruction)
 
 // analyse runs the intraprocedural fixpoint for one function.
 func (e *c18Engine) analyse(fn *ssa.Function) *c18Func {
-	fi := &c18Func{fn: fn, in: map[*ssa.BasicBlock]*c18State{}, deferredUnlock: c18Set{}, acq: map[string]bool{}}
+	fi := &c18Func{fn: fn, in: map[*ssa.BasicBlock]*c18State{}, deferredUnlock: c18Set{}, acq: map[string]bool{}, acqRel: map[string]c18Set{}, acquired: c18Set{}, viaWrapper: c18Set{}}
 	if len(fn.Blocks) == 0 {
 		return fi
 	}
 	for _, b := range fn.Blocks {
-		fi.in[b] = &c18State{must: c18Set{}, may: c18Set{}}
+		fi.in[b] = c18NewState()
 	}
-	out := map[*ssa.BasicBlock]*c18State{}
 	entry := fn.Blocks[0]
 	fi.in[entry].reached = true
 	work := []*ssa.BasicBlock{entry}
 	inWork := map[*ssa.BasicBlock]bool{entry: true}
+	meetMust := func(dst, src c18Set) bool {
+		ch := false
+		for k := range dst {
+			if !src[k] {
+				delete(dst, k)
+				ch = true
+			}
+		}
+		return ch
+	}
+	joinMay := func(dst, src c18Set) bool {
+		ch := false
+		for k := range src {
+			if !dst[k] {
+				dst[k] = true
+				ch = true
+			}
+		}
+		return ch
+	}
 	for len(work) > 0 {
 		b := work[0]
 		work = work[1:]
 		inWork[b] = false
-		st := &c18State{must: fi.in[b].must.clone(), may: fi.in[b].may.clone(), reached: true}
+		st := fi.in[b].clone()
 		for _, in := range b.Instrs {
 			e.step(fi, st, in, false)
 		}
-		out[b] = st
 		for _, s := range b.Succs {
 			ns := fi.in[s]
 			changed := false
 			if !ns.reached {
+				*ns = *st.clone()
 				ns.reached = true
-				ns.must = st.must.clone()
-				ns.may = st.may.clone()
 				changed = true
 			} else {
-				for k := range ns.must {
-					if !st.must[k] {
-						delete(ns.must, k)
-						changed = true
-					}
+				if meetMust(ns.must, st.must) {
+					changed = true
 				}
-				for k := range st.may {
-					if !ns.may[k] {
-						ns.may[k] = true
-						changed = true
-					}
+				if joinMay(ns.may, st.may) {
+					changed = true
+				}
+				if meetMust(ns.relMust, st.relMust) {
+					changed = true
+				}
+				if joinMay(ns.relMay, st.relMay) {
+					changed = true
 				}
 			}
 			if changed && !inWork[s] {
@@ -690,29 +1164,53 @@ func (e *c18Engine) analyse(fn *ssa.Function) *c18Func {
 		if !fi.in[b].reached {
 			continue
 		}
-		st := &c18State{must: fi.in[b].must.clone(), may: fi.in[b].may.clone(), reached: true}
+		st := fi.in[b].clone()
 		for _, in := range b.Instrs {
 			e.step(fi, st, in, true)
 		}
+	}
+	// the net effect is defined when every return path agrees
+	for i, n := range fi.rets {
+		if i == 0 {
+			fi.net = n
+			continue
+		}
+		if !c18NetEqual(fi.net, n) {
+			fi.netBad = true
+			e.note(fn, fi.retPos[i], "return paths differ in their net lock effect (%s vs %s): unsupported shape", c18NetString(fi.net), c18NetString(n))
+			break
+		}
+	}
+	if fi.net.empty() || fi.netBad {
+		fi.net = nil
 	}
 	return fi
 }
 
 // HeldAt returns the locks held (locally acquired) just before instr.
 func (e *c18Engine) HeldAt(in ssa.Instruction) (must, may c18Set) {
+	st := e.stateAt(in)
+	return st.must, st.may
+}
+
+// ReleasedAt returns the caller-owned locks that may already have been
+// released by the function itself just before instr.
+func (e *c18Engine) ReleasedAt(in ssa.Instruction) c18Set { return e.stateAt(in).relMay }
+
+func (e *c18Engine) stateAt(in ssa.Instruction) *c18State {
 	fn := in.Parent()
 	fi := e.fi[fn]
 	if fi == nil || fi.in[in.Block()] == nil || !fi.in[in.Block()].reached {
-		return c18Set{}, c18Set{}
+		return c18NewState()
 	}
-	st := &c18State{must: fi.in[in.Block()].must.clone(), may: fi.in[in.Block()].may.clone(), reached: true}
+	st := fi.in[in.Block()].clone()
 	for _, x := range in.Block().Instrs {
 		if x == in {
 			break
 		}
 		e.step(fi, st, x, false)
 	}
-	return st.must, st.may
+	return st
 }
 
 // summaries computes acq(f): the lock classes f may acquire (itself or through
@@ -722,11 +1220,28 @@ func (e *c18Engine) HeldAt(in ssa.Instruction) (must, may c18Set) {
 // connected through that intermediate lock (A->C, C->B), so every cycle of the
 // full "held-before" relation is a cycle of this graph.
 func (e *c18Engine) summaries() {
+	// meet records one occurrence of "fn may acquire class (outer)" together
+	// with the caller-owned locks definitely released before it.
+	meet := func(fi *c18Func, class string, released c18Set) bool {
+		ch := false
+		if !fi.acq[class] {
+			fi.acq[class] = true
+			fi.acqRel[class] = released.clone()
+			return true
+		}
+		for k := range fi.acqRel[class] {
+			if !released[k] {
+				delete(fi.acqRel[class], k)
+				ch = true
+			}
+		}
+		return ch
+	}
 	for _, fn := range e.funcs {
 		fi := e.fi[fn]
 		for _, a := range fi.acqs {
 			if len(a.must) == 0 {
-				fi.acq[a.class] = true
+				meet(fi, a.class, a.rel)
 			}
 		}
 	}
@@ -739,9 +1254,13 @@ func (e *c18Engine) summaries() {
 					continue
 				}
 				for _, g := range s.callees {
-					for c := range e.fi[g].acq {
-						if !fi.acq[c] {
-							fi.acq[c] = true
+					gi := e.fi[g]
+					for c := range gi.acq {
+						rel := s.rel.clone()
+						for k := range gi.acqRel[c] {
+							rel[k] = true
+						}
+						if meet(fi, c, rel) {
 							changed = true
 						}
 					}
@@ -749,6 +1268,24 @@ func (e *c18Engine) summaries() {
 			}
 		}
 	}
+}
+
+// releasedBefore: every acquisition of class reachable through the call
+// happens after the callees have released the caller's lock h (a release
+// helper such as "unlock, then send the follow-up event").
+func (e *c18Engine) releasedBefore(s *c18Site, class, h string) bool {
+	any := false
+	for _, g := range s.callees {
+		gi := e.fi[g]
+		if !gi.acq[class] {
+			continue
+		}
+		any = true
+		if !gi.acqRel[class].holds(h, true) {
+			return false
+		}
+	}
+	return any
 }
 
 // MayAcquire is the summary used for edges at a call site.
@@ -870,6 +1407,9 @@ func (e *c18Engine) edges() []*c18Edge {
 				}
 				sort.Slice(acqs, func(i, j int) bool { return acqs[i].String() < acqs[j].String() })
 				for _, h := range s.may.classes() {
+					if e.releasedBefore(s, cl, h) {
+						continue
+					}
 					for _, q := range acqs {
 						first := c18Hop{fn, s.instr.Pos(), "holding " + h + " calls " + c18SiteName(s)}
 						ci := e.w.Info(s.instr)
@@ -1011,7 +1551,21 @@ func runC18(c *an.Check) {
 	c.Extra["acquisition_sites"] = nAcq
 	c.Extra["analysed_functions"] = len(e.funcs)
 	c.AtLeast("C18.R1", "lock classes acquired in production code", len(classes), 14)
-	c.AtLeast("C18.R1", "acquisition sites", nAcq, 50)
+	// semantic count: (function, lock class) pairs where the function takes the
+	// lock itself or through a wrapper - stable under wrapper/dedup refactors
+	nHold := 0
+	for _, fn := range e.funcs {
+		m := map[string]bool{}
+		for k := range e.fi[fn].acquired {
+			m[c18Base(k)] = true
+		}
+		for k := range e.fi[fn].viaWrapper {
+			m[c18Base(k)] = true
+		}
+		nHold += len(m)
+	}
+	c.Extra["lock_holding_functions"] = nHold
+	c.AtLeast("C18.R1", "(function, lock class) pairs that take a lock", nHold, 45)
 
 	// the event mutex: what SendEvent itself locks with nothing held and releases by defer
 	eventLocks := map[string]bool{}
@@ -1025,6 +1579,14 @@ func runC18(c *an.Check) {
 		return
 	}
 	eventLock := sortedKeys(eventLocks)[0]
+
+	// functions whose lock state contains an unsupported shape
+	unsure := map[*ssa.Function]bool{}
+	for _, u := range e.unknown {
+		if u.state {
+			unsure[u.fn] = true
+		}
+	}
 
 	// ---- R1 ----------------------------------------------------------------------
 	edges := e.edges()
@@ -1087,6 +1649,10 @@ func runC18(c *an.Check) {
 				path = append(path, e.renderPath(wt.path)...)
 			}
 		}
+		if unsure[ed.holder] || unsure[ed.acquirer] {
+			c.Unknown("C18.R1", cons, w.Pos(ed.pos), "possible "+detail+" - but the lock state of the holding or acquiring function contains an unsupported shape, so this is not established")
+			continue
+		}
 		c.Bad("C18.R1", cons, w.Pos(ed.pos), detail, path...)
 	}
 	for k, n := range okEdges {
@@ -1128,6 +1694,9 @@ func runC18(c *an.Check) {
 				if h == eventLock {
 					continue // re-acquisition under the event mutex itself is R1 (self-loop) / R3
 				}
+				if e.releasedBefore(s, eventLock, h) {
+					continue // the callee releases h before it reaches the event mutex
+				}
 				if !(succ[eventLock][h] || c18ClassPath(eventLock, h, succ) != nil) {
 					c.OK("C18.R2", cons, w.Pos(s.instr.Pos()), "the callback can take the event mutex, but "+h+" is never acquired under the event mutex (nesting only)")
 					continue
@@ -1144,6 +1713,10 @@ func runC18(c *an.Check) {
 						path = append(path, fmt.Sprintf("and %s is taken under %s:", back[i+1], back[i]))
 						path = append(path, e.renderPath(wt.path)...)
 					}
+				}
+				if unsure[fn] {
+					c.Unknown("C18.R2", cons, w.Pos(s.instr.Pos()), "possible callback under lock, but the lock state of this function contains an unsupported shape")
+					continue
 				}
 				c.Bad("C18.R2", cons, w.Pos(s.instr.Pos()),
 					fmt.Sprintf("callback under lock: %s is held across a dynamic call that reaches the acquisition of %s, and %s is acquired under %s by event handling", h, eventLock, h, eventLock), path...)
